@@ -330,6 +330,18 @@ C17Frozen(pre, a, res, post) ==
                 <<pre.ch[c].ve, pre.ch[c].ov, pre.ch[c].eo>> # <<post.ch[c].ve, post.ch[c].ov, post.ch[c].eo>>, "C17:ChangedWithoutRegistration", c)
            : c \in Chains(post)}
 
+\* what an account does on a chain is attributed to the validator that registered it as its orchestrator (the registry
+\* is consulted first), else to the validator the account itself operates
+RegisteredVal(s, c, acct) == IF Has(s.ch[c].ov, acct) THEN s.ch[c].ov[acct] ELSE acct
+C17Attribution(pre, a, res, post) ==
+    IF res.out # "ok" \/ a.k \notin {"Claim", "Confirm"} \/ a.chain \notin Chains(pre) THEN {}
+    ELSE LET c == a.chain
+             v == RegisteredVal(pre, c, a.by)
+         IN IF a.k = "Confirm"
+            THEN Fail(~Has(SigsOf(post, c, a.tx), v) \/ Has(SigsOf(pre, c, a.tx), v), "C17:Attribution", "confirmation")
+            ELSE Fail(Get(post.ch[c].lnv, v, -1) # a.ev.n
+                      \/ ~\E r \in post.ch[c].votes : r.n = a.ev.n /\ Len(r.voters) > 0 /\ r.voters[Len(r.voters)] = v, "C17:Attribution", "vote")
+
 \* ---------------------------------------------------------------- C16  confirmations
 SigCount(s, c) == FoldSet(LAMBDA gsig, acc : acc + Cardinality(DOMAIN gsig.by), 0, s.ch[c].sigs)
 C16Confirm(pre, a, res, post) ==
@@ -416,7 +428,7 @@ StepChecks(g, pre, a, res, post) ==
   \cup C12Cancel(g, pre, a, res, post) \cup C12Expiry(g, pre, a, post)
   \cup C11Send(pre, a, res, post) \cup C11Others(pre, a, res, post) \cup C11Deposit(pre, a, post)
   \cup C02Checks(pre, a, post) \cup C02Vote(pre, a, res, post) \cup C03Checks(pre, a, res, post) \cup C05Checks(a, res)
-  \cup C09Checks(pre, a, post) \cup C17Inv(post) \cup C17Register(pre, a, res, post) \cup C17Frozen(pre, a, res, post)
+  \cup C09Checks(pre, a, post) \cup C17Inv(post) \cup C17Register(pre, a, res, post) \cup C17Frozen(pre, a, res, post) \cup C17Attribution(pre, a, res, post)
   \cup C16Confirm(pre, a, res, post) \cup C19Checks(pre, a, post)
 
 =============================================================================
